@@ -27,9 +27,9 @@ def cases(tier, seed):
     for sh, dims in shapes:
         for g in (rots if tier == "thorough" else rnd.sample(rots, 5)):
             out.append({"kind": "lattice", "shape": sh, "dims": dims or [1, 1, 1], "perm": g[0], "sign": g[1], "t": rnd.choice([[0, 0, 0], [7, -3, 50], [-20, 11, 2], [200, 100, -300]]),
-                        "unit": rnd.choice([2.0 ** -17, 2.0 ** -20, 1.0])})
+                        "unit": rnd.choice([2.0 ** -17, 2.0 ** -20, 1.0, 2.0 ** -30, 2.0 ** -37, 2.0 ** 20])})       # "any size": down to nanometres, up to 10^6
     for n in range(12 if tier == "quick" else 150):
-        sc = rnd.choice([4e-6, 1.0, 2e-5])
+        sc = rnd.choice([4e-6, 1.0, 2e-5, 3e-9, 7e-11, 2.5e5])
         on = lambda: rnd.random() < 0.7
         out.append({"kind": "generic", "level": rnd.choice([1, 2]), "jitter": rnd.choice([0.0, 0.03, 0.06]), "scale": sc, "pos": [rnd.uniform(-10, 10) * sc for _ in range(3)], "seed": seed + n,
                     "params": {"g0": 3e-4 if on() else 0.0, "ka": rnd.choice([0.0, 1e-15, 3e-13]), "kang": rnd.choice([0.0, 1e-16, 1e-14]), "K": rnd.choice([0.0, 2500.0, 1e4]),
